@@ -499,6 +499,34 @@ func runC04(c *Ctx) {
 				visit(fn, 0)
 				_ = n
 			}
+			// ... and says so: every path of ScheduleOnce on which the timer is not ready returns an error; on the ready
+			// path the internal timer is armed (delay > 0) or the callback is run at once
+			{
+				paths, overflow := enumPaths(schedOnce)
+				okErr, nRefused := !overflow, 0
+				for _, path := range paths {
+					if path.Panics || path.Ret() == nil {
+						continue
+					}
+					refused := false
+					for _, l := range path.Lits {
+						if k, eq, ok := enumTest(l.Lit, stateF); ok && ((eq && k != ready) || (!eq && k == ready)) {
+							refused = true
+						}
+					}
+					if !refused {
+						continue
+					}
+					nRefused++
+					ret := path.Ret()
+					if path.nilness(ret.Results[len(ret.Results)-1]) != "nonnil" {
+						okErr = false
+					}
+				}
+				c.check(okErr && nRefused > 0, schedOnce, "refused schedule reported", schedOnce.Pos(), "a schedule on a timer that is not ready returns an error", "ScheduleOnce can return nil for a timer that is scheduled or closed: the caller believes its callback is due although nothing was armed")
+				arms := len(deepCallsTo(schedOnce, itSet)) > 0
+				c.check(arms, schedOnce, "arms the timer", schedOnce.Pos(), "the internal timer is set", "ScheduleOnce never arms the internal timer: no scheduled callback ever runs")
+			}
 		}
 		// Cancel: stateReady is recorded exactly when Unset succeeded (a failed Unset leaves the timerfd armed: the timer
 		// is still scheduled; a successful one leaves nothing due: Scheduled() must say so and a new schedule be accepted)
